@@ -77,7 +77,7 @@ XReq2    == [XReq EXCEPT !.call = "tok"]                                 \* ... 
 DataCur  == [Data(1) EXCEPT !.cur = "tok"]                               \* token on a row-bearing batch
 LogData  == [Data(1) EXCEPT !.log = "lvl"]
 
-\* palettes (cfg: Kinds <- PalX)
+\* palettes (sets of batch kinds) the enumeration suites below draw from
 PalTokens  == {Zero, Cur, Call, Both}
 PalTokens5 == {Zero, Data(1), Cur, Call, Both}
 PalEmpty   == {Zero, Cur, Call, Both, ECur, ECall}
